@@ -64,8 +64,8 @@ TIssue == /\ Live /\ Ln.e = "issue"
 
 \* the simcall class reported by the kernel must be the one the operation is at
 CallOk(op, sub, call) ==
-  CASE op \in {"put", "puta", "putd"} /\ sub = 1 -> call = "actor::CommIsendSimcall"
-    [] op \in {"get", "geta"} /\ sub = 1 -> call = "actor::CommIrecvSimcall"
+  CASE op \in {"put", "puta", "putd", "sendt"} /\ sub = 1 -> call = "actor::CommIsendSimcall"
+    [] op \in {"get", "geta", "recvf"} /\ sub = 1 -> call = "actor::CommIrecvSimcall"
     [] op \in {"mput", "mputa"} /\ sub = 1 -> call = "actor::MessIputSimcall"
     [] op \in {"mget", "mgeta"} /\ sub = 1 -> call = "actor::MessIgetSimcall"
     [] op \in {"put", "get", "mput", "mget", "exec"} /\ sub = 2 -> call = "actor::ActivityWaitSimcall"
@@ -85,11 +85,16 @@ McType(op, sub) ==
     [] op = "geta" \/ (op = "get" /\ sub = 1) -> "iRecv"
     [] op = "wait" \/ (op \in {"put", "get"} /\ sub = 2) -> "WaitComm"
     [] op = "test" -> "TestComm"                    [] op = "sleep" -> "ActorSleep"
+    [] op \in {"cvwait", "cvwaitfor"} /\ sub = 1 -> "CONDVAR_ASYNC_LOCK"
+    [] op \in {"cvwait", "cvwaitfor"} /\ sub = 2 -> "CONDVAR_WAIT"
+    [] op \in {"cvwait", "cvwaitfor"} /\ sub = 3 -> "MUTEX_WAIT"
+    [] op = "sig" -> "CONDVAR_SIGNAL"               [] op = "bcast" -> "CONDVAR_BROADCAST"
     [] OTHER -> "?"
 CheckerAgrees(ln, base, new) ==
   LET a == ln.a   op == Cur(P, base, a)   t == McType(op.op, base.sub[a]) IN
   /\ ln.ca = a /\ ln.ctype = t
-  /\ (t \in {"MUTEX_ASYNC_LOCK", "MUTEX_WAIT", "MUTEX_TRYLOCK", "MUTEX_UNLOCK"} => ln.cobj = op.o /\ ln.cown = new.own[op.o])
+  /\ (t \in {"MUTEX_ASYNC_LOCK", "MUTEX_WAIT", "MUTEX_TRYLOCK", "MUTEX_UNLOCK"} =>
+        LET m == IF op.op \in {"cvwait", "cvwaitfor"} THEN op.p ELSE op.o IN ln.cobj = m /\ ln.cown = new.own[m])
   /\ (t \in {"SEM_ASYNC_LOCK", "SEM_UNLOCK"} => ln.cobj = op.o /\ ln.ccap = new.val[op.o] - Len(new.sq[op.o]))   \* SemaphoreObserver
   /\ (t = "SEM_WAIT" => ln.cobj = op.o /\ ln.ccap = new.val[op.o])
   /\ (t \in {"BARRIER_ASYNC_LOCK", "BARRIER_WAIT", "iSend", "iRecv"} => ln.cobj = op.o)
@@ -156,7 +161,9 @@ TAdv == /\ Live /\ Ln.e = "adv"
         /\ \/ Ln.clk = st.now /\ st' = st
            \/ /\ Ln.clk > st.now /\ pend = {} /\ CanAdvance(P, st)
               /\ (TimerDates(P, st) # {} => Ln.clk <= MinDate(TimerDates(P, st)))
-              /\ (FreeRunning(st) = {} => Ln.clk = MinDate(TimerDates(P, st)))    \* C03: exactly to the next date
+              \* C03: exactly to the next date (the end of the latency phase of a communication is an internal date of the
+              \* network model at which nothing observable happens: allowed when the link has a latency)
+              /\ ((FreeRunning(st) = {} /\ ~(P.lat > 0 /\ Running(st) # {})) => Ln.clk = MinDate(TimerDates(P, st)))
               /\ st' = [st EXCEPT !.now = Ln.clk]
            \/ /\ Ln.clk = -7 /\ ~P.timed /\ pend = {} /\ ~SomeReady(P, st)       \* off-grid date: only programs
               /\ TimerDates(P, st) = {} /\ FreeRunning(st) # {} /\ st' = st          \* without timed operations
